@@ -446,12 +446,47 @@ class SqlHoister(ast.NodeTransformer):
         return node
 
 
+class GuardClauses(ast.NodeTransformer):
+    """reduce nesting: a loop body ending in `if c: BODY` becomes `if not c: continue; BODY`; a function body ending in
+    `if c: BODY` (no else) becomes `if not c: return None; BODY`"""
+
+    @staticmethod
+    def _neg(t: ast.AST) -> ast.AST:
+        return t.operand if isinstance(t, ast.UnaryOp) and isinstance(t.op, ast.Not) else ast.UnaryOp(op=ast.Not(), operand=t)
+
+    def _split(self, body: list[ast.stmt], jump: ast.stmt) -> list[ast.stmt]:
+        if body and isinstance(body[-1], ast.If) and not body[-1].orelse and not any(isinstance(x, ast.NamedExpr) for x in ast.walk(body[-1].test)):
+            last = body[-1]
+            guard = ast.copy_location(ast.If(test=self._neg(last.test), body=[jump], orelse=[]), last)
+            return body[:-1] + [guard] + self._split(last.body, jump)
+        return body
+
+    def visit_For(self, node):
+        self.generic_visit(node)
+        if not node.orelse:
+            node.body = self._split(node.body, ast.Continue())
+        return node
+
+    visit_While = visit_For
+
+    def visit_FunctionDef(self, node):
+        self.generic_visit(node)
+        if not any(isinstance(x, (ast.Yield, ast.YieldFrom)) for x in ast.walk(node)):
+            node.body = self._split(node.body, ast.Return(value=ast.Constant(value=None)))
+        return node
+
+    visit_AsyncFunctionDef = visit_FunctionDef
+
+
 def rewrite_tree(root: Path, rename: bool, mode: str = "") -> int:
     n = 0
     sigs = collect_signatures(root) if mode in ("kw", "pos") else {}
     ptable = collect_param_names(root) if mode == "params" else {}
     for f in list(root.rglob("*.py")):
         tree = ast.parse(f.read_text())
+        if mode == "guard":
+            tree = GuardClauses().visit(tree)
+            ast.fix_missing_locations(tree)
         if mode == "sqlvar":
             tree = SqlHoister().visit(tree)
             ast.fix_missing_locations(tree)
